@@ -431,7 +431,21 @@ def _argmin(a, *args, **kw):
     return _np.argmin(conc(_np.asarray(a)), *args, **kw)
 
 
+def _reduce_axis(a, axis, pair):
+    a = _np.asarray(a, dtype=object)
+    a = _np.moveaxis(a, axis, 0)
+    out = _np.empty(a.shape[1:], dtype=object)
+    for idx in _np.ndindex(*a.shape[1:]):
+        m = a[(0,) + idx]
+        for k in range(1, a.shape[0]):
+            m = pair(m, a[(k,) + idx])
+        out[idx] = m
+    return out if out.shape != () else out[()]
+
+
 def _max(a, axis=None, **kw):
+    if has_sym(a) and axis is not None and not kw:
+        return _reduce_axis(a, axis, _MAXIMUM)
     if has_sym(a) and axis is None:
         flat = list(_np.asarray(a, dtype=object).ravel())
         m = flat[0]
@@ -442,6 +456,8 @@ def _max(a, axis=None, **kw):
 
 
 def _min(a, axis=None, **kw):
+    if has_sym(a) and axis is not None and not kw:
+        return _reduce_axis(a, axis, _MINIMUM)
     if has_sym(a) and axis is None:
         flat = list(_np.asarray(a, dtype=object).ravel())
         m = flat[0]
